@@ -143,15 +143,77 @@ pub fn run(ctx: &Ctx) -> Report {
         if rng.chance(1, 4) {
             case.hs_seq = rng.below(256) as u8;
         }
+        // a quarter of the conversations meet one transient transport error (Interrupted / WouldBlock /
+        // TimedOut): if the server carries on and run_on returns Ok, every id must still be right
+        let transient = !ctx.miri && i % 4 == 2;
+        if transient {
+            let dry = run_case(&case);
+            case.fault.err_at = Some(rng.below(dry.world.nops.max(1)));
+            case.fault.persistent = false;
+            case.fault.err_kind = 100 + (i / 4 % 3) as u8;
+        }
         let obs = run_case(&case);
         rep.evaluations += 1;
-        let d = || J::obj().set("commands", kinds_summary(&case.cmds)).set("ids", case.cmds.iter().map(|c| J::from(c.seq)).collect::<Vec<_>>()).set("handshake_id", case.hs_seq).set("outcome", obs.outcome.describe());
+        if transient {
+            if obs.outcome != Outcome::Ok {
+                rep.counters.inc("transient_error_ended_the_connection");
+                return;
+            }
+            rep.counters.inc("transient_error_survived_ids_judged");
+        }
+        let d = || J::obj().set("commands", kinds_summary(&case.cmds)).set("ids", case.cmds.iter().map(|c| J::from(c.seq)).collect::<Vec<_>>()).set("handshake_id", case.hs_seq).set("transient_fault", format!("{:?} kind {}", case.fault.err_at, case.fault.err_kind)).set("outcome", obs.outcome.describe());
         if i == 0 {
             rep.sample(d());
         }
         check(&obs, rep, &d);
     });
     rep.merge(r);
+
+    // ---- (c2) responses whose last packets are written by destructors (writers dropped without
+    //      finish), with one transient error at EVERY transport operation in turn: if run_on returns
+    //      Ok, the ids are still right
+    if !ctx.miri {
+        let mut variants: Vec<(bool, u8)> = Vec::new();
+        for bin in [false, true] {
+            for v in 0..4u8 {
+                variants.push((bin, v));
+            }
+        }
+        let r = par_cases(ctx, "C05", "destructor-paths-under-transient-errors", variants.len() as u64, |_rng, i, rep| {
+            let (bin, v) = variants[i as usize];
+            let cols: Vec<_> = (0..2).map(|c| simple_col(&format!("c{}", c), ColumnType::MYSQL_TYPE_LONG)).collect();
+            let row = |k: i32| QOp::Row(vec![Cell::val(V::I32(k)), Cell::val(V::I32(k + 1))], RowForm::Owned);
+            let ops = match v {
+                0 => vec![QOp::Start(0), row(1), row(2), QOp::DropRow],
+                1 => vec![QOp::Start(0), row(1), QOp::Col(Cell::val(V::I32(5))), QOp::Col(Cell::val(V::I32(6)))],
+                2 => vec![QOp::Start(0), row(1), QOp::FinishOne, QOp::CompleteOne(1, 2), QOp::DropResult],
+                _ => vec![QOp::CompleteOne(3, 4), QOp::Start(0), QOp::DropRow],
+            };
+            let vname = ["row writer dropped after rows", "row writer dropped with a complete un-ended row", "result writer dropped after chained sets", "row writer dropped right after the header of a second set"][v as usize];
+            let prog = QProg { colsets: vec![cols.clone()], ops, on_err: OnErr::Drop };
+            let mk = || Case::new(vec![Cmd::prepare(b"p"), if bin { Cmd::execute(1, &[], false).seq(7) } else { Cmd::query(b"q").seq(7) }, Cmd::ping().seq(200)], vec![Script::PrepOk { id: 1, params: vec![], cols: cols.clone() }, Script::Q(prog.clone())]);
+            let dry = run_case(&mk());
+            for k in 0..dry.world.nops {
+                for kind in [100u8, 101, 102] {
+                    let mut case = mk();
+                    case.fault.err_at = Some(k);
+                    case.fault.persistent = false;
+                    case.fault.err_kind = kind;
+                    let obs = run_case(&case);
+                    rep.evaluations += 1;
+                    if obs.outcome != Outcome::Ok {
+                        rep.counters.inc("transient_error_ended_the_connection");
+                        continue;
+                    }
+                    rep.counters.inc("transient_error_survived_ids_judged");
+                    rep.counters.class(format!("{} ({}), transient error kind {} on {:?} survived", vname, if bin { "binary" } else { "text" }, kind, obs.world.fault_op));
+                    let d = || J::obj().set("program", vname).set("mode", if bin { "binary" } else { "text" }).set("transient_fault", format!("kind {} at transport operation #{} ({:?})", kind, k, obs.world.fault_op)).set("outcome", obs.outcome.describe());
+                    check(&obs, rep, &d);
+                }
+            }
+        });
+        rep.merge(r);
+    }
 
     // ---- (d) multi-packet requests: the reply must start after the LAST fragment's id
     if !ctx.miri {
